@@ -139,7 +139,9 @@ func ExecSched(sc sim.Script) *sim.Outcome {
 	for _, sig := range raceLog.New("github.com/0chain/common") {
 		w.fail("race", "race:"+sig, "data race reported by the race detector: %s", sig)
 	}
-	if w.v != nil {
+	if w.v != nil || sched.RaceEnabled {
+		// the -race build decides only the race / panic / deadlock clauses: the detector reports a
+		// given race once per process, so value oracles there would not replay in a fresh process
 		return w.outcomeSched()
 	}
 	// commit return stamps
